@@ -742,7 +742,78 @@ Section MInv.
       apply splan_count_some. apply in_map_iff. exists (s, k). split; [reflexivity | exact Hp].
     - unfold status. rewrite Em. lia.
   Qed.
+  (* ---------- a reader whose two reads straddle some calls ---------- *)
+  Lemma madds_step : forall a st c a' st', MInv a st ->
+    mstep b plan (deployed st0) (a, st) c = Some (a', st') ->
+    forall s, madds (m_insts a) s <= madds (m_insts a') s.
+  Proof.
+    intros a st c a' st' I H s.
+    destruct c as [ident n k inj | ident n id inj | n id inj | ident n inj]; cbn [mstep] in H.
+    - destruct (splan_count (m_todo a) (n, ident)); [|discriminate]. destruct (Z.eqb k z); [|discriminate].
+      destruct inj; [|destruct (create_processing st n ident k)]; inversion H; subst; simpl; lia.
+    - match type of H with (if ?c then _ else _) = _ => destruct c end; [|discriminate].
+      destruct inj; [|destruct (add_workload b st n id ident) as [x o]]; inversion H; subst; cbn [m_insts];
+        rewrite madds_cons; match goal with |- context [if ?q then 1 else 0] => destruct q end; lia.
+    - destruct (minst_state (n, id) (m_insts a)) as [[ident0 s0]|] eqn:Es; try discriminate.
+      pose proof (mv_ids _ _ I) as NDi.
+      destruct s0; try discriminate.
+      + destruct inj; inversion H; subst; [lia|]. cbn [m_insts]. unfold madds.
+        rewrite (cnt_set_minst _ _ _ _ _ _ NDi Es). unfold mwas_added, on_slot, mi_slot. simpl. lia.
+      + inversion H; subst. cbn [m_insts]. unfold madds.
+        rewrite (cnt_set_minst _ _ _ _ _ _ NDi Es). unfold mwas_added, on_slot, mi_slot. simpl. lia.
+    - destruct (mem_slot (n, ident) (m_clean a)); [|discriminate]. destruct inj; inversion H; subst; simpl; lia.
+  Qed.
+
+  Lemma madds_run : forall cs a st a' st', MInv a st ->
+    mrun b plan (deployed st0) (a, st) cs = Some (a', st') ->
+    forall s, madds (m_insts a) s <= madds (m_insts a') s.
+  Proof.
+    induction cs as [|c t IH]; intros a st a' st' I H s; cbn [mrun] in H.
+    - inversion H; subst. lia.
+    - destruct (mstep b plan (deployed st0) (a, st) c) as [[a1 st1]|] eqn:E; [|discriminate].
+      pose proof (madds_step _ _ _ _ _ I E s). pose proof (minv_step _ _ _ _ _ I E) as I1.
+      pose proof (IH _ _ _ _ I1 H s). lia.
+  Qed.
+
+  (* deployed keys read in state st1, markers read in the later state st2 *)
+  Theorem mtorn_of_inv : forall a1 st1 a2 st2 n, MInv a1 st1 -> MInv a2 st2 ->
+    (forall s, madds (m_insts a1) s <= madds (m_insts a2) s) ->
+    recorded st0 n <= status st0 n ->
+    recorded st1 n <= recorded st1 n + marker_sum (markers st2) n <= status st0 n + planned_on plan n.
+  Proof.
+    intros a1 st1 a2 st2 n I1 I2 Hm H0.
+    destruct (mstatus_formula a1 st1 n I1) as [R1 _].
+    set (f := fun s => splanned plan s - madds (m_insts a2) s).
+    set (pl := map fst plan).
+    assert (M0 : 0 <= marker_sum (markers st0) n) by (unfold status in H0; lia).
+    assert (Em : marker_sum (markers st2) n = marker_sum (markers st0) n + sum_on (m_live a2) f n).
+    { rewrite (mv_mark _ _ I2). rewrite marker_sum_app. unfold mmark. rewrite marker_sum_mown. reflexivity. }
+    pose proof (mv_nd _ _ I2) as ND.
+    assert (LND : NoDup (m_live a2)) by (eapply NoDup_app_remove_r; exact ND).
+    assert (Lsub : forall s, In s (m_live a2) -> In s pl).
+    { intros s Hs. pose proof (mv_live_plan _ _ s I2 Hs) as X.
+      destruct (splan_count plan s) eqn:E; [|congruence]. eapply splan_count_In. exact E. }
+    assert (Isub : forall p, In p (m_insts a1) -> In (mi_slot p) pl).
+    { intros p Hp. pose proof (mv_inst_plan _ _ I1 p Hp) as X.
+      destruct (splan_count plan (mi_slot p)) eqn:E; [|congruence]. eapply splan_count_In. exact E. }
+    assert (Fnn : forall s, 0 <= f s).
+    { intros s. unfold f. pose proof (madds_le_on (m_insts a2) s). pose proof (mv_cap _ _ I2 s). lia. }
+    assert (S0 : 0 <= sum_on (m_live a2) f n).
+    { rewrite <- (sum_on_zero (m_live a2) n). apply sum_on_le. intros s _. apply Fnn. }
+    split; [lia|].
+    rewrite Em, R1. unfold status.
+    rewrite (mlive_on_sum pl (m_insts a1) n plan_nd Isub).
+    rewrite (sum_on_sub (m_live a2) pl f n LND plan_nd Lsub).
+    rewrite (planned_on_sum plan n plan_nd). fold pl.
+    assert (sum_on pl (mlive_slot (m_insts a1)) n + sum_on pl (fun s => if mem_slot s (m_live a2) then f s else 0) n
+            <= sum_on pl (splanned plan) n); [|lia].
+    rewrite <- sum_on_add. apply sum_on_le. intros s _.
+    destruct (mlive_slot_bounds (m_insts a1) s) as [L0 L1].
+    pose proof (madds_le_on (m_insts a1) s). pose proof (mv_cap _ _ I1 s). pose proof (Hm s).
+    destruct (mem_slot s (m_live a2)); unfold f; lia.
+  Qed.
 End MInv.
+
 
 (* ---------- the closed statements ---------- *)
 Definition plan_wf (plan : list (slot * Z)) (st0 : dstate) : Prop :=
@@ -798,3 +869,39 @@ Example multi_bounds_reached :
         MAdd "a/e/1" "n" "w1" false; MAdd "a/e/2" "n" "w2" false] = Some (a, st)
      /\ status st "n" = 2 /\ recorded st "n" = 2).
 Proof. split; eexists; eexists; split; [reflexivity | split; reflexivity | reflexivity | split; reflexivity]. Qed.
+
+(* ---------- GetDeployStatus as the two reads it is ---------- *)
+(* the code reads the deployed keys first (state st1) and the markers second
+   (state st2, any number of store calls of any deployments later) *)
+Definition torn_status (st1 st2 : dstate) (n : string) : Z := recorded st1 n + marker_sum (markers st2) n.
+
+Theorem multi_torn_read : forall b plan st0 cs1 cs2 a1 st1 a2 st2 n,
+  plan_wf plan st0 -> recorded st0 n <= status st0 n ->
+  mrun b plan (deployed st0) (mstart plan, st0) cs1 = Some (a1, st1) ->
+  mrun b plan (deployed st0) (a1, st1) cs2 = Some (a2, st2) ->
+  recorded st1 n <= torn_status st1 st2 n <= status st0 n + planned_on plan n
+  /\ torn_status st1 st2 n = status st2 n - (recorded st2 n - recorded st1 n).
+Proof.
+  intros b plan st0 cs1 cs2 a1 st1 a2 st2 n [W1 [W2 W3]] H0 R1 R2.
+  assert (I1 : MInv plan st0 a1 st1).
+  { eapply (minv_run b plan st0 W3); [|exact R1]. apply minv_start; assumption. }
+  assert (I2 : MInv plan st0 a2 st2) by (eapply (minv_run b plan st0 W3); [exact I1 | exact R2]).
+  split; [|unfold torn_status, status; lia].
+  unfold torn_status. eapply (mtorn_of_inv plan st0 W1); eauto.
+  eapply (madds_run b plan st0 W3); eauto.
+Qed.
+
+(* the other order (markers first, deployed keys second) breaks the upper bound:
+   one deployment planning one instance, the reader straddling its AddWorkload
+   sees the old marker and the new record: 2 > 0 + 1 *)
+Example swapped_reads_overcount :
+  let plan := [(("n"%string, "a/e/1"%string), 1)] in
+  let st0 := mkD [] [] in
+  exists a1 st1 a2 st2,
+    mrun Redis plan [] (mstart plan, st0) [MCreateProc "a/e/1" "n" 1 false] = Some (a1, st1)
+    /\ mrun Redis plan [] (a1, st1) [MAdd "a/e/1" "n" "w1" false] = Some (a2, st2)
+    /\ marker_sum (markers st1) "n" + recorded st2 "n" = 2
+    /\ status st0 "n" + planned_on plan "n" = 1
+    (* while the code's order undercounts against the later state and stays within the bounds *)
+    /\ torn_status st1 st2 "n" = 0 /\ recorded st2 "n" = 1.
+Proof. do 4 eexists. repeat split; reflexivity. Qed.
